@@ -278,6 +278,14 @@ def r3(F, R):
             if val is None and tt["otherwise"] == s:
                 val = not any(arm["val"] != 0 for arm in tt["arms"])
             conds.append((val, vt_str(v)))
+    # the same conditions reached through a boolean helper result (`if self.switch_is_due()`, inlined): relations that hold on the edge
+    from . import rel as Rl_
+    for (o, l, r, _s) in Rl_.edge_relations(d, bb):
+        if r is not None and o in ("Eq", "Ne", "Ge", "Lt", "Le", "Gt"):
+            conds.append((True, "%s(%s Xx %s)" % (o.lower(), vt_str(l), vt_str(r))))
+            conds.append((True, "%s %s %s" % (vt_str(l), {"Eq": " Eq ", "Ge": " Ge ", "Lt": " Lt ", "Ne": " Ne ", "Le": " Le ", "Gt": " Gt "}[o], vt_str(r))))
+        elif r is None:
+            conds.append((o == "True", vt_str(l)))
     txt = " ; ".join("%s:%s" % c for c in conds)
     c1 = any(v and "trajectory_kind" in s and "EuclideanEarlyThenMicrocanonical" in s and "eq" in s for v, s in conds)
     # `==` or `>=`: together with the latch conjunct both make the switch happen once, at the first draw that reaches switch_draw
